@@ -934,8 +934,15 @@ ELEM = {
                   "magic": {"ident": ("Option<Ident>", "el.ident"), "vis": ("Visibility", "el.vis"), "ty": ("Type", "el.ty"), "attrs": ("Vec<Attribute>", "vec_of(w.fwd)")}},
     "FromAttributes": {"fn": "from_attributes", "param": "__di", "pty": None, "attrs": "el@",
                        "magic": {"attrs": ("Vec<Attribute>", "vec_of(w.fwd)")}},
+    "FromVariant": {"fn": "from_variant", "param": "__variant", "pty": "crate::darling::export::syn::Variant", "attrs": "el.attrs@",
+                    "magic": {"ident": ("Ident", "el.ident"), "discriminant": ("Option<Expr>", "variant_discr(el)"), "attrs": ("Vec<Attribute>", "vec_of(w.fwd)"),
+                              "fields": ("AstFields<FF>", "dv")}},
+    "FromTypeParam": {"fn": "from_type_param", "param": "__type_param", "pty": "crate::darling::export::syn::TypeParam", "attrs": "el.attrs@",
+                      "magic": {"ident": ("Ident", "el.ident"), "bounds": ("Vec<TypeParamBound>", "vec_of(bound_seq(el.bounds))"), "default": ("Option<Type>", "el.default"),
+                                "attrs": ("Vec<Attribute>", "vec_of(w.fwd)")}},
 }
-MAGIC_DECL = {"ident": "syn::Ident", "vis": "syn::Visibility", "generics": "syn::Generics", "attrs": "Vec<syn::Attribute>", "data": "darling::ast::Data<VV, FF>", "ty": "syn::Type"}
+MAGIC_DECL = {"ident": "syn::Ident", "vis": "syn::Visibility", "generics": "syn::Generics", "attrs": "Vec<syn::Attribute>", "data": "darling::ast::Data<VV, FF>", "ty": "syn::Type",
+              "discriminant": "Option<syn::Expr>", "fields": "darling::ast::Fields<FF>", "bounds": "Vec<syn::TypeParamBound>", "default": "Option<syn::Type>"}
 
 
 def elem_desc(name, trait, fields, attributes, forward=None, magic=(), **kw):
@@ -962,8 +969,10 @@ def elem_declaration(d):
     # magic fields are declared with their real syn types; opt-in generic params for `data`
     mf = " ".join(f"{k}: {'Option<syn::Ident>' if (k == 'ident' and d['trait'] == 'FromField') else MAGIC_DECL[k]}," for k in d["magic"])
     base = base.replace(" { ", " { " + mf + " ", 1)
-    if "data" in d["magic"]:
-        base = re.sub(r"struct (\w+)<", r"struct \1<VV, FF, ", base, count=1) if re.search(r"struct \w+<", base) else re.sub(r"struct (\w+) ", r"struct \1<VV, FF> ", base, count=1)
+    xg = ["VV", "FF"] if "data" in d["magic"] else (["FF"] if "fields" in d["magic"] else [])
+    if xg:
+        g = ", ".join(xg)
+        base = re.sub(r"struct (\w+)<", rf"struct \1<{g}, ", base, count=1) if re.search(r"struct \w+<", base) else re.sub(r"struct (\w+) ", rf"struct \1<{g}> ", base, count=1)
         base = base.replace(", >", ">")
     return base
 
@@ -983,18 +992,21 @@ def elem_template(d, gen_id, mode="full"):
     ctx = {"loop": 1, "match": 1 if will_walk else 0, "closure": 0, "occ_for": 0, "occ_alts": 0, "elem": True, "magic": magic, "start": start, "extra_inv": extra_inv}
     text, D, info = struct_template(dict(d, kind="struct"), gen_id, mode="full", ctx=ctx)
     tps = info["tps"]
-    data_g = "VV, FF, " if "data" in d["magic"] else ""
-    # struct_template declared `pub struct n<tps>` - add the data generics
+    xg = ["VV", "FF"] if "data" in d["magic"] else (["FF"] if "fields" in d["magic"] else [])
+    xgs = ", ".join(xg)
+    data_g = (xgs + ", ") if xg else ""
+    rej = " ".join(f"#[verifier::reject_recursive_types({x})]" for x in xg)
+    # struct_template declared `pub struct n<tps>` - add the body-conversion generics
     if data_g:
-        text = text.replace(f"pub struct {n}<{tps}>", f"#[verifier::reject_recursive_types(VV)] #[verifier::reject_recursive_types(FF)] pub struct {n}<{data_g}{tps}>", 1)
-        text = text.replace(f"pub struct Magic{n} {{", f"#[verifier::reject_recursive_types(VV)] #[verifier::reject_recursive_types(FF)] pub struct Magic{n}<VV, FF> {{", 1)
+        text = text.replace(f"pub struct {n}<{tps}>", f"{rej} pub struct {n}<{data_g}{tps}>", 1)
+        text = text.replace(f"pub struct Magic{n} {{", f"{rej} pub struct Magic{n}<{xgs}> {{", 1)
         text = re.sub(rf"\b{n}<{re.escape(tps)}>", f"{n}<{data_g}{tps}>", text)
-        text = text.replace(f"mg: Magic{n}", f"mg: Magic{n}<VV, FF>")
-        text = re.sub(rf"pub open spec fn (val_{n}|map_{n}_spec|fix_{n}_spec|mk_{n}_spec|dflt_{n}_spec)<", r"pub open spec fn \1<VV, FF, ", text)
-        text = re.sub(rf"pub uninterp spec fn (map_{n}_spec|fix_{n}_spec|mk_{n}_spec|dflt_{n}_spec)<", r"pub uninterp spec fn \1<VV, FF, ", text)
-        text = re.sub(rf"pub fn (map_{n}|fix_{n}|mk_{n})<", r"pub fn \1<VV, FF, ", text)
-        text = re.sub(rf"impl<{re.escape(tps)}> darling::export::Default for", f"impl<VV, FF, {tps}> darling::export::Default for", text)
-        text = re.sub(rf"(mk_{n}_spec|dflt_{n}_spec)::<{re.escape(tps)}>", rf"\1::<VV, FF, {tps}>", text)
+        text = text.replace(f"mg: Magic{n}", f"mg: Magic{n}<{xgs}>")
+        text = re.sub(rf"pub open spec fn (val_{n}|map_{n}_spec|fix_{n}_spec|mk_{n}_spec|dflt_{n}_spec)<", rf"pub open spec fn \1<{xgs}, ", text)
+        text = re.sub(rf"pub uninterp spec fn (map_{n}_spec|fix_{n}_spec|mk_{n}_spec|dflt_{n}_spec)<", rf"pub uninterp spec fn \1<{xgs}, ", text)
+        text = re.sub(rf"pub fn (map_{n}|fix_{n}|mk_{n})<", rf"pub fn \1<{xgs}, ", text)
+        text = re.sub(rf"impl<{re.escape(tps)}> darling::export::Default for", f"impl<{xgs}, {tps}> darling::export::Default for", text)
+        text = re.sub(rf"(mk_{n}_spec|dflt_{n}_spec)::<{re.escape(tps)}>", rf"\1::<{xgs}, {tps}>", text)
     gb = info["gen_bounds"]
     full_tps = f"{data_g}{tps}"
     full_gb = f"{data_g}{gb}"
@@ -1020,7 +1032,7 @@ def elem_template(d, gen_id, mode="full"):
     w(f"pub open spec fn awalk_{n}<{gb}>(attrs: Seq<Attribute>) -> W{n}<{tps}> decreases attrs.len() {{")
     w(f"    if attrs.len() == 0 {{ W{n} {{ st: init_{n}::<{tps}>(), fwd: Seq::empty() }} }} else {{ astep_{n}::<{tps}>(awalk_{n}::<{tps}>(attrs.drop_last()), attrs.last()) }}")
     w("}")
-    elty = {"FromDeriveInput": "DeriveInput", "FromField": "Field", "FromAttributes": "Seq<Attribute>"}[d["trait"]]
+    elty = {"FromDeriveInput": "DeriveInput", "FromField": "Field", "FromAttributes": "Seq<Attribute>", "FromVariant": "Variant", "FromTypeParam": "TypeParam"}[d["trait"]]
     w(f"pub open spec fn efin_{n}<{full_gb}>(el: {elty}) -> Result<{n}<{full_tps}>> {{")
     if will_walk:
         w(f"    let w = awalk_{n}::<{tps}>({E['attrs'] if d['trait'] != 'FromAttributes' else 'el'});")
@@ -1030,11 +1042,13 @@ def elem_template(d, gen_id, mode="full"):
     w(f"    let s = chk_{n}::<{tps}>(w.st);")
     w("    if s.errs.len() > 0 { Err(e_multiple(s.errs)) } else {")
     mg_inits = ", ".join(f"{k}: {E['magic'][k][1]}" for k in d["magic"])
-    mg = f"Magic{n}" + ("::<VV, FF>" if data_g else "")
+    mg = f"Magic{n}" + (f"::<{xgs}>" if data_g else "")
     valcall = f"val_{n}::<{full_tps}>(s" + (f", {mg} {{ {mg_inits} }}" if magic else "") + ")"
     cp = info["cp"].replace("(v)", f"({valcall})") if info["cp"] != "Ok(v)" else f"Ok({valcall})"
     if "data" in d["magic"]:
         w(f"        match data_try_from_spec::<VV, FF>(el.data) {{ Err(e) => Err(e), Ok(dv) => {cp} }}")
+    elif "fields" in d["magic"]:
+        w(f"        match fields_try_from_spec::<FF>(el.fields) {{ Err(e) => Err(e), Ok(dv) => {cp} }}")
     else:
         w(f"        {cp}")
     w("    }")
@@ -1069,6 +1083,12 @@ def elem_template(d, gen_id, mode="full"):
         for x in D:
             w(x)
     w("    //@ replace R4v opt: vec![] ==> Vec::new()")
+    if d["trait"] == "FromVariant" and "discriminant" in d["magic"]:
+        w("    //@ replace R11c: __variant.discriminant.as_ref().map($$) ==> crate::discriminant_of(__variant)")
+    if d["trait"] == "FromTypeParam" and "bounds" in d["magic"]:
+        w("    //@ replace R11c: __type_param.bounds.clone().into_iter().collect::<Vec<_>>() ==> crate::bounds_of(__type_param)")
+    if d["trait"] == "FromTypeParam" and "default" in d["magic"]:
+        w("    //@ replace R11c: __type_param.default.clone() ==> crate::clone_opt_type(&__type_param.default)")
     for x in DISCIPLINE:
         w(x)
     w("    //@end")
@@ -1085,6 +1105,8 @@ def quick_elems():
         elem_desc("D2", "FromAttributes", [f("x", multiple=True), f("y")], ["cfgx"]),
         elem_desc("D3", "FromDeriveInput", [f("only")], ["one"], magic=["ident"]),
         elem_desc("D4", "FromDeriveInput", [f("v", default="trait")], ["cfg_a"], forward=[], magic=["attrs", "ident"]),
+        elem_desc("D8", "FromVariant", [f("a")], ["foo"], forward=["doc"], magic=["ident", "discriminant", "fields", "attrs"]),
+        elem_desc("D9", "FromTypeParam", [f("a", default="trait")], ["foo", "bar"], forward="all", magic=["ident", "bounds", "default", "attrs"]),
         elem_desc("D6", "FromDeriveInput", [f("z", skip=True)], [], forward=[], magic=["attrs", "ident"]),
         elem_desc("D7", "FromField", [f("q", default="path")], ["ns::deep", "plain"], forward=["ns::doc"], magic=["attrs"]),
         elem_desc("D5", "FromField", [f("keepers", multiple=True)], ["one", "two", "three"], forward=["keep"], magic=["attrs", "vis"], allow_unknown=True),
